@@ -23,23 +23,33 @@ def _enum_cases(L, bs, prefixes=NPREFIX):
 
 RULE = ("inputs: RFC 3986 grammar strings with a-priori known components (incl. IP-literals, IPvFuture, pct-encoding, empty "
         "components, the header's unix: form), delimiter-heavy token soups and 1-3 edit mutations, every string of length <= L over "
-        "the alphabet 'a1:/?#@[]% .' behind each of 12 prefixes (quick L=4, thorough L=6 and L=7 for two prefixes), and URIs built "
+        "the alphabet 'a1:/?#@[]% .' behind each of 12 prefixes (quick L=4; thorough L=5, and L=6 behind the prefixes '', 's://', 's://unix:/k', 's://['), and URIs built "
         "with the setters; each input under all 8 flag sets; non-trivial = accepted by at least one flag set (so components were "
         "compared and join/parse round-tripped) and length >= 3, or a setter-built URI that joined and re-parsed; distinct = hash of the "
         "input string / of the setter call sequence")
-STEPS = [
-    dict(flavor="asan", harness="h_uri", args=["--mode", "gram"], cases=dict(quick=30000, thorough=3000000), env=ENV),
-    dict(flavor="asan", harness="h_uri", args=["--mode", "rand"], cases=dict(quick=40000, thorough=4000000), env=ENV, seed_off=3),
-    dict(flavor="asan", harness="h_uri", args=["--mode", "setter"], cases=dict(quick=20000, thorough=2000000), env=ENV, seed_off=5),
-    dict(flavor="asan", harness="h_uri", args=["--mode", "enum", "--n1", 4, "--n2", 512], tiers=("quick",),
-         cases=dict(quick=_enum_cases(4, 512)), env=ENV),
-    dict(flavor="asan", harness="h_uri", args=["--mode", "enum", "--n1", 6, "--n2", 4096], tiers=("thorough",),
-         cases=dict(thorough=_enum_cases(6, 4096)), env=ENV, timeout=3000),
-    dict(flavor="asan", harness="h_uri", args=["--mode", "enum", "--n1", 7, "--n2", 16384, "--arg", "0"], tiers=("thorough",),
-         cases=dict(thorough=_enum_cases(7, 16384, 1)), env=ENV, timeout=3000),
-    dict(flavor="asan", harness="h_uri", args=["--mode", "enum", "--n1", 7, "--n2", 16384, "--arg", "3"], tiers=("thorough",),
-         cases=dict(thorough=_enum_cases(7, 16384, 1)), env=ENV, timeout=3000),
-]
+def _st(mode, quick=None, thorough=None, shards=None, seed_off=0, extra=()):
+    """one step dict per tier: the quick tier uses few shards (an ASan process costs ~0.3 s to start and leak-check,
+    more than the quick work of a shard), the thorough tier all cores"""
+    out = []
+    for tier, n, sh in (("quick", quick, shards), ("thorough", thorough, None)):
+        if n is None:
+            continue
+        d = dict(flavor="asan", harness="h_uri", args=["--mode", mode] + list(extra), tiers=(tier,), cases={tier: n}, env=ENV,
+                 seed_off=seed_off, timeout=3000)
+        if sh:
+            d["shards"] = sh
+        out.append(d)
+    return out
+
+
+STEPS = (_st("gram", quick=20000, thorough=2000000, shards=4)
+         + _st("rand", quick=30000, thorough=3000000, shards=4, seed_off=3)
+         + _st("setter", quick=15000, thorough=2000000, shards=2, seed_off=5)
+         + _st("enum", quick=_enum_cases(4, 512), shards=8, extra=["--n1", 4, "--n2", 512])
+         + _st("enum", thorough=_enum_cases(5, 2048), extra=["--n1", 5, "--n2", 2048]))
+# thorough: length 6 behind the four most structure-bearing prefixes: "" (0), "s://" (3), "s://unix:/k" (5), "s://[" (7)
+for _p in (0, 3, 5, 7):
+    STEPS += _st("enum", thorough=_enum_cases(6, 8192, 1), extra=["--n1", 6, "--n2", 8192, "--arg", str(_p)])
 REQUIRED = ["accepted", "rejected", "must_accept", "must_reject", "either", "components_compared", "roundtrip_ok",
             "join_text_checked", "join_limit_checked", "unix_form_pinned", "unix_form_accepted", "host_ipv6", "host_ipvfuture",
             "host_empty", "brackets_stripped", "port_set", "port_empty", "userinfo_seen", "query_empty_string",
@@ -53,7 +63,7 @@ REG = dict(
           "short strings under all 8 flag combinations; every accepted input must join and re-parse to identical components "
           "(NULL vs \"\" and port -1 vs set distinguished), its components must equal an independent RFC 3986 split, join must be the "
           "concatenation of the components, and setter-accepted URIs must round-trip or be refused by join."),
-    note=("Sampled, except the enumeration (all strings up to length 4/6/7 over 12 symbols behind fixed prefixes). Trusts the "
+    note=("Sampled, except the enumeration (all strings up to length 4 (quick) / 5, and 6 behind four of the prefixes (thorough), over 12 symbols behind 12 fixed prefixes). Trusts the "
           "harness's own RFC 3986 splitter (cross-checked against the grammar generator on every generated URI). Calibrated choices: "
           "ports above 65535 refused, NONCONFORMANT does not relax the colon-in-first-segment rule, lenient platform inet_pton forms "
           "inside otherwise well-formed IPv6 literals are 'either', UNIX-socket forms the header does not pin are 'either'. "
